@@ -143,7 +143,7 @@ fam(ScenarioFamily('shapes', BUS_PROPS, gen.shapes_scenario, 500, 5000))
 fam(EnumFamily('error_enum', ('C11', 'C01'), gen.error_base, gen.error_derive, 12, 200, 40, 120))
 fam(EnumFamily('idle_enum', ('C15',), gen.idle_base, gen.idle_derive, 16, 250, 40, 120))
 fam(ScenarioFamily('history_deep', BUS_PROPS, gen.history_deep_scenario, 300, 4000))
-fam(EnumFamily('stop_enum', ('C16', 'C05', 'C06'), gen.stop_base, gen.stop_derive, 12, 200, 40, 150))
+fam(EnumFamily('stop_enum', ('C16', 'C05', 'C06'), gen.stop_base, gen.stop_derive, 20, 200, 40, 150))
 fam(EnumFamily('cancel_enum', ('C16',), gen.stop_base, gen.cancel_derive, 6, 80, 30, 100))
 def _second_loop_scenario(rng, i):
     sc = gen.random_scenario(rng, gen.cfg(nb=(1, 3), p_fwd=0.2, p_par=0.2, actor_await=0.6, p_raise=0.1))
